@@ -433,6 +433,8 @@ class Array:
         if token_length is None:
             token_length = self.itemsize
 
+        if token_length == 0:
+            raise ValueError(f"A zero length format ('{fmt}') can't be used in Array.pp().")
         trailing_bit_length = len(self.data) % token_length
         format_sep = " : "  # String to insert on each line between multiple formats
         if tidy_fmt is None:
